@@ -450,7 +450,15 @@ func (e *envModel) unmarshal(fr *frame, format string, data []value, target valu
 	if srcT != nil && !types.Identical(srcT, deref(it.t)) {
 		// written from one type, read into another (a "file format" struct): fields travel by
 		// their document names; names the writer does not have come back as zero values
-		src = convertDecoded(deepCopy(src), srcT, deref(it.t), format)
+		mismatch := false
+		src = convertDecodedM(deepCopy(src), srcT, deref(it.t), format, &mismatch)
+		if mismatch {
+			// the document has another shape than the destination (a mapping where a list is
+			// expected, a scalar where a record is expected ...): the decoder fills what fits and
+			// reports a type error
+			i.assignDecodedFmt(dst, src, it.t, format)
+			return e.typeError(format)
+		}
 	}
 	e.decoded++
 	if tr.doc.broken != "" {
@@ -488,8 +496,57 @@ func docFieldName(st *types.Struct, k int, format string) string {
 	return st.Field(k).Name()
 }
 
-// convertDecoded re-shapes a decoded value from the writer's type to the reader's type.
+// typeError builds the decoder's "wrong shape" error: *yaml.TypeError / *json.UnmarshalTypeError.
+func (e *envModel) typeError(format string) value {
+	i := e.i
+	pkg, typ := "gopkg.in/yaml.v3", "TypeError"
+	if format == "json" {
+		pkg, typ = "encoding/json", "UnmarshalTypeError"
+	}
+	if p := i.prog.ImportedPackage(pkg); p != nil {
+		if t := p.Type(typ); t != nil {
+			var cell value = zero(t.Type())
+			if format == "yaml" {
+				if sv, ok := cell.(structure); ok && len(sv) > 0 {
+					sv[0] = []value{"line 1: cannot unmarshal into the destination type"}
+				}
+			}
+			return iface{t: types.NewPointer(t.Type()), v: &cell}
+		}
+	}
+	errPkg := i.prog.ImportedPackage("errors")
+	var v value = structure{format + ": unmarshal errors: wrong shape"}
+	return iface{t: types.NewPointer(errPkg.Type("errorString").Type()), v: &v}
+}
+
+func shapeOf(t types.Type) string {
+	switch u := t.Underlying().(type) {
+	case *types.Struct:
+		return "record"
+	case *types.Map:
+		return "record"
+	case *types.Slice, *types.Array:
+		return "list"
+	case *types.Pointer:
+		return shapeOf(u.Elem())
+	case *types.Interface:
+		return "any"
+	}
+	return "scalar"
+}
+
 func convertDecoded(v value, from, to types.Type, format string) value {
+	var m bool
+	return convertDecodedM(v, from, to, format, &m)
+}
+
+// convertDecodedM re-shapes a decoded value from the writer's type to the reader's type;
+// *mismatch is set when some part of the document has another shape than its destination.
+func convertDecodedM(v value, from, to types.Type, format string, mismatch *bool) value {
+	if a, b := shapeOf(from), shapeOf(to); a != b && a != "any" && b != "any" {
+		*mismatch = true
+		return zero(to)
+	}
 	switch tt := to.Underlying().(type) {
 	case *types.Struct:
 		ft, ok := from.Underlying().(*types.Struct)
@@ -505,7 +562,7 @@ func convertDecoded(v value, from, to types.Type, format string) value {
 			}
 			for j := 0; j < ft.NumFields(); j++ {
 				if docFieldName(ft, j, format) == name {
-					out[k] = convertDecoded(sv[j], ft.Field(j).Type(), tt.Field(k).Type(), format)
+					out[k] = convertDecodedM(sv[j], ft.Field(j).Type(), tt.Field(k).Type(), format, mismatch)
 				}
 			}
 		}
@@ -521,13 +578,13 @@ func convertDecoded(v value, from, to types.Type, format string) value {
 		}
 		out := make([]value, len(sl))
 		for k := range sl {
-			out[k] = convertDecoded(sl[k], ft.Elem(), tt.Elem(), format)
+			out[k] = convertDecodedM(sl[k], ft.Elem(), tt.Elem(), format, mismatch)
 		}
 		return out
 	case *types.Pointer:
 		if fp, ok := from.Underlying().(*types.Pointer); ok {
 			if p, ok := v.(*value); ok && p != nil {
-				c := convertDecoded(*p, fp.Elem(), tt.Elem(), format)
+				c := convertDecodedM(*p, fp.Elem(), tt.Elem(), format, mismatch)
 				return &c
 			}
 		}
